@@ -203,6 +203,13 @@ func (i *Importer) Commit() error {
 		}
 	case 1:
 		i.stack[0].nodeKey.nonce = 1
+		if i.stack[0].nodeKey.version < i.version {
+			// The root was last written at an earlier version. Stored under (that version, 1) it
+			// would make that version - which is not part of the import - appear to exist. It
+			// goes where the root of a pruned version lives, (version, 0); GetRoot and GetNode
+			// resolve the reference root written below either way.
+			i.stack[0].nodeKey.nonce = 0
+		}
 		if err := i.writeNode(i.stack[0]); err != nil {
 			return err
 		}
